@@ -307,7 +307,7 @@ func (w *World) setupTask(t *simcore.Task) {
 	spawn("reader", c.Range(p.ReadersMin, p.ReadersMax), w.readerTask)
 	spawn("watcher", c.Range(p.WatchersMin, p.WatchersMax), w.watcherTask)
 	spawn("consumer", c.Range(p.ConsumersMin, p.ConsumersMax), w.consumerTask)
-	if p.Registrar && c.Choose(2) == 0 {
+	if p.Registrar && c.Choose(max(2, p.RegistrarOdds)) == 0 {
 		spawn("registrar", 1, w.registrarTask)
 	}
 	if p.Prober {
